@@ -21,6 +21,7 @@ type Clause struct {
 
 type LoopSpec struct {
 	Ordinal    int
+	Lemmas     []*Clause // lemmas about the state at the cut, proved by induction under the invariants
 	Invariants []*Clause
 	Ghost      []*Clause // ghost updates at back-edge
 	Decreases  *Clause
@@ -69,6 +70,7 @@ type FuncSpec struct {
 	Opts       map[string]string
 	ExitGhost  []*Clause // ghost updates applied at each return
 	AtCall     []*AtCall // ghost updates applied right after the k-th call (source order) of a callee
+	Lemmas     []*Clause // entry-state lemmas `forall v int, ... :: P`, proved by strong induction on the first variable
 	Uses       []*Clause
 }
 
@@ -239,7 +241,21 @@ func (cs *ContractSet) parseLines(file string, lines []string, nums []int, exter
 			}
 			cs.Preds[pd.Name] = pd
 			continue
-		case "axiom", "lemma":
+		case "lemma":
+			if cur == nil {
+				return fmt.Errorf("%s: lemma outside func block", src)
+			}
+			e, err := parseExpr(it.rest)
+			if err != nil {
+				return fmt.Errorf("%s: %v in %q", src, err, it.rest)
+			}
+			if curLoop != nil {
+				curLoop.Lemmas = append(curLoop.Lemmas, &Clause{Kind: "lemma", Tag: it.tag, Text: it.rest, Expr: e, Src: src})
+				continue
+			}
+			cur.Lemmas = append(cur.Lemmas, &Clause{Kind: "lemma", Tag: it.tag, Text: it.rest, Expr: e, Src: src})
+			continue
+		case "axiom":
 			// axiom name: expr
 			k := strings.Index(it.rest, ":")
 			if k < 0 {
@@ -646,6 +662,10 @@ type (
 		Val  Expr
 		Body Expr
 	}
+	ELambda struct {
+		Var  GhostDecl
+		Body Expr
+	}
 )
 
 func (EIdent) exprNode() {}
@@ -663,6 +683,7 @@ func (EQuant) exprNode() {}
 func (EOld) exprNode()   {}
 func (EAddr) exprNode()  {}
 func (ELet) exprNode()   {}
+func (ELambda) exprNode() {}
 
 type tok struct {
 	k string // "id" "int" "op" "eof"
@@ -818,6 +839,41 @@ func (p *parser) expr() (Expr, error) {
 			return nil, err
 		}
 		return EQuant{Forall: t.s == "forall", Vars: vars, Body: body, Pats: pats}, nil
+	}
+	if t.k == "id" && t.s == "lambda" {
+		p.next()
+		nm := p.next()
+		if nm.k != "id" {
+			return nil, fmt.Errorf("lambda: expected variable name")
+		}
+		var ts []string
+		depth := 0
+		for {
+			tt := p.peek()
+			if tt.k == "eof" {
+				return nil, fmt.Errorf("lambda: missing '::'")
+			}
+			if depth == 0 && tt.k == "op" && tt.s == "::" {
+				break
+			}
+			if tt.s == "[" {
+				depth++
+			} else if tt.s == "]" {
+				depth--
+			}
+			ts = append(ts, tt.s)
+			p.next()
+		}
+		p.next()
+		te, err := parseTypeExpr(strings.Join(ts, ""))
+		if err != nil {
+			return nil, err
+		}
+		body, err := p.expr()
+		if err != nil {
+			return nil, err
+		}
+		return ELambda{GhostDecl{Name: nm.s, Type: te}, body}, nil
 	}
 	if t.k == "id" && t.s == "let" {
 		p.next()
@@ -1152,12 +1208,14 @@ func (sp *FuncSpec) specText() string {
 	add(sp.Requires)
 	add(sp.Ensures)
 	add(sp.Asserts)
+	add(sp.Lemmas)
 	add(sp.ExitGhost)
 	for _, a := range sp.AtCall {
 		b.WriteString(a.Clause.Text + " ")
 	}
 	add(sp.Uses)
 	for _, l := range sp.Loops {
+		add(l.Lemmas)
 		add(l.Invariants)
 		add(l.Ghost)
 	}
